@@ -88,3 +88,10 @@ Definition warping_path_model (u : usettings) (s1 s2 : list point) : (nat * nat)
   let m := wps_matrix u s1 s2 in
   let ij := relaxed_end (mget m) (sr s1) (sc s2) (psi_1e u) (psi_2e u) in
   (ij, best_path_model m (adj_penalty u) (fst ij) (snd ij)).
+
+(* executable: the cells dtw.warping_paths (psi_neg) marks with -1 *)
+Definition marks_model (u : usettings) (s1 s2 : list point) : list (nat * nat) :=
+  let m := wps_matrix u s1 s2 in
+  let r := sr s1 in let c := sc s2 in
+  flat_map (fun i => flat_map (fun j => if marked (mget m) r c (psi_1e u) (psi_2e u) i j then [(i, j)] else []) (seq 0 (S c)))
+           (seq 0 (S r)).
